@@ -80,6 +80,7 @@ def obj_desc(draw, cls=None, depth=0):
         d['notes'] = draw(notes_st)
         d['smiles'] = draw(text_st)
         d['n_sites'] = draw(st.sampled_from([None, None, 1, 2]))
+        d['explicit_none'] = draw(st.booleans())
         d['cat_site'] = draw(st.booleans()) if cls == 'Nasa' else False
         d['misc'] = [draw(cov_model()) for _ in range(draw(st.sampled_from([0, 0, 1])))]
     elif cls == 'SingleNasa9':
@@ -180,8 +181,8 @@ def build(d):
         kw = {'notes': d['notes'], 'smiles': d['smiles']}
         if d.get('no_P_adj'):
             kw['add_gas_P_adj'] = False
-        if d['n_sites'] is not None:
-            kw['n_sites'] = d['n_sites']
+        if d['n_sites'] is not None or d.get('explicit_none'):
+            kw['n_sites'] = d['n_sites']        # (an explicit None is not the same as the class default)
         if d['cat_site']:
             from pmutt.chemkin import CatSite
             kw['cat_site'] = CatSite(name='RU0001', site_density=2.1e-9, density=12.4, bulk_specie='RU(B)')
@@ -369,6 +370,37 @@ def _sigpath(path):
         if len(parts) == 1 else '/'.join(parts[:2])
 
 
+def strict_where(a, b, path=''):
+    """first place where two JSON-like trees differ in type or value (None if they are the same tree)"""
+    if type(a) is not type(b):
+        return '%s: %s -> %s' % (path or '/', type(a).__name__, type(b).__name__)
+    if isinstance(a, dict):
+        if list(a) != list(b):
+            return '%s: keys %r -> %r' % (path or '/', list(a), list(b))
+        for k_ in a:
+            w = strict_where(a[k_], b[k_], '%s/%s' % (path, k_))
+            if w:
+                return w
+        return None
+    if isinstance(a, (list, tuple)):
+        if len(a) != len(b):
+            return '%s: length %d -> %d' % (path or '/', len(a), len(b))
+        for i_, (x_, y_) in enumerate(zip(a, b)):
+            w = strict_where(x_, y_, '%s[%d]' % (path, i_))
+            if w:
+                return w
+        return None
+    try:
+        same = bool(a == b) or (a != a and b != b)
+    except Exception:
+        same = False
+    return None if same else '%s: %r -> %r' % (path or '/', a, b)
+
+
+def strict_equal(a, b):
+    return strict_where(a, b) is None
+
+
 def check_rt(d, ctx):
     from pmutt.io.json import pmuttEncoder, json_to_pmutt
     obj = build(d)
@@ -417,8 +449,8 @@ def check_rt(d, ctx):
     raw = json.loads(text)
     keep = copy.deepcopy(raw)
     first = json_to_pmutt(raw)
-    if raw != keep:
-        dj = diff(norm(keep), norm(raw))
+    if not strict_equal(raw, keep):
+        dj = diff(norm(keep), norm(raw)) or ('<types>', strict_where(keep, raw))
         ctx.fail('C11.rt/decode-mutates-input:%s' % cname, 'first difference %r' % (dj,))
         return
     second = json_to_pmutt(raw)
